@@ -10,6 +10,7 @@ to compose strategies given multiple checks specified in a schema.
 
 See the :ref:`user guide <data-synthesis-strategies>` for more details.
 """
+import datetime
 import operator
 import re
 import warnings
@@ -477,6 +478,20 @@ def eq_strategy(
     return pandas_dtype_strategy(pandera_dtype, st.just(value))
 
 
+def _to_pandas_time_value(pandera_dtype, value: Any) -> Any:
+    """Convert python datetime/timedelta check values to their pandas types.
+
+    The synthesized elements are numpy scalars, which never compare equal to
+    ``datetime.datetime`` / ``datetime.timedelta`` objects, but do compare with
+    ``pd.Timestamp`` / ``pd.Timedelta``.
+    """
+    if is_datetime(pandera_dtype) and isinstance(value, datetime.datetime):
+        return pd.Timestamp(value)
+    if is_timedelta(pandera_dtype) and isinstance(value, datetime.timedelta):
+        return pd.Timedelta(value)
+    return value
+
+
 def ne_strategy(
     pandera_dtype: Union[numpy_engine.DataType, pandas_engine.DataType],
     strategy: Optional[SearchStrategy] = None,
@@ -493,6 +508,7 @@ def ne_strategy(
     """
     if strategy is None:
         strategy = pandas_dtype_strategy(pandera_dtype)
+    value = _to_pandas_time_value(pandera_dtype, value)
     return strategy.filter(partial(operator.ne, value))
 
 
@@ -664,6 +680,10 @@ def notin_strategy(
     """
     if strategy is None:
         strategy = pandas_dtype_strategy(pandera_dtype)
+    forbidden_values = [
+        _to_pandas_time_value(pandera_dtype, value)
+        for value in forbidden_values
+    ]
     return strategy.filter(lambda x: x not in forbidden_values)
 
 
